@@ -29,6 +29,10 @@ pub struct Graph {
     /// file i declares namespace tns_of[i] (empty = each file its own)
     #[serde(default)]
     pub tns_of: Vec<usize>,
+    /// includes[i] = files named by xs:include in file i (same target namespace). The pinned tree
+    /// does not follow xs:include, so these files are required at most once, not exactly once.
+    #[serde(default)]
+    pub includes: Vec<Vec<usize>>,
 }
 
 impl Graph {
@@ -84,6 +88,9 @@ fn schema_text(g: &Graph, i: usize) -> String {
     for j in imports {
         s += &format!("  <xs:import namespace=\"{}\" schemaLocation=\"{}\"/>\n", ns(g.nsi(*j), g.same_suffix), file_name(*j));
     }
+    for j in g.includes.get(i).map(|v| v.as_slice()).unwrap_or(&[]) {
+        s += &format!("  <xs:include schemaLocation=\"{}\"/>\n", file_name(*j));
+    }
     s += &format!(
         "  <xs:complexType name=\"Ct{i}Node\"><xs:sequence><xs:element name=\"label\" type=\"xs:string\"/><xs:element name=\"count\" type=\"xs:int\" minOccurs=\"0\"/></xs:sequence></xs:complexType>\n  <xs:simpleType name=\"St{i}Code\"><xs:restriction base=\"xs:string\"><xs:maxLength value=\"8\"/></xs:restriction></xs:simpleType>\n  <xs:element name=\"El{i}Root\"><xs:complexType><xs:sequence><xs:element name=\"item\" type=\"xs:string\" maxOccurs=\"unbounded\"/></xs:sequence></xs:complexType></xs:element>\n</xs:schema>\n"
     );
@@ -101,6 +108,23 @@ pub fn reachable(g: &Graph) -> BTreeSet<usize> {
         }
     }
     seen
+}
+
+/// Files reachable over xs:import and xs:include edges together.
+pub fn reachable_any(g: &Graph) -> BTreeSet<usize> {
+    let mut seen = BTreeSet::new();
+    let mut q = vec![g.start];
+    while let Some(i) = q.pop() {
+        if seen.insert(i) {
+            q.extend(g.edges[i].iter().copied());
+            q.extend(g.includes.get(i).into_iter().flatten().copied());
+        }
+    }
+    seen
+}
+
+fn has_includes(g: &Graph) -> bool {
+    g.includes.iter().any(|v| !v.is_empty())
 }
 
 pub fn render(g: &Graph) -> FileSet {
@@ -151,6 +175,12 @@ pub fn render(g: &Graph) -> FileSet {
 
 fn shape_classes(g: &Graph) -> Vec<&'static str> {
     let mut c = vec![];
+    if has_includes(g) {
+        c.push("shape.include-edge");
+        if reachable_any(g).len() > reachable(g).len() {
+            c.push("shape.reachable-through-include-only");
+        }
+    }
     let reach = reachable(g);
     if (0..g.n).any(|i| g.edges[i].contains(&i) && reach.contains(&i)) {
         c.push("self-import");
@@ -265,9 +295,18 @@ fn judge(g: &Graph, out: &Outcome) -> Option<(String, String)> {
         *count.entry(n.as_str()).or_insert(0) += 1;
     }
     let reach = reachable(g);
+    let reach_any = reachable_any(g);
     for i in 0..g.n {
         for c in components(i) {
             let k = count.get(c.as_str()).copied().unwrap_or(0);
+            if !reach.contains(&i) && reach_any.contains(&i) {
+                // reachable only through xs:include: the pinned tree ignores it, a tree that follows
+                // includes emits it; either way never more than once
+                if k > 1 {
+                    return Some(("included-component-duplicated".into(), format!("{c} of {} appears {k} times", file_name(i))));
+                }
+                continue;
+            }
             if reach.contains(&i) {
                 if k == 0 {
                     return Some(("reachable-component-missing".into(), format!("{c} of {} is reachable but absent", file_name(i))));
@@ -301,14 +340,14 @@ fn enumerate(n: usize) -> Vec<Graph> {
         for start in 0..n {
             // the namespace style rotates over the enumeration so that all four styles are met
             // by every small shape class (each graph x start also appears in the plain style)
-            out.push(Graph { n, edges: edges.clone(), start, noise: Noise::None, same_suffix: false, declare_prefixes: false, tns_of: vec![] });
+            out.push(Graph { n, edges: edges.clone(), start, noise: Noise::None, same_suffix: false, declare_prefixes: false, tns_of: vec![], includes: vec![] });
             let k = (mask as usize + start) % 3;
-            out.push(Graph { n, edges: edges.clone(), start, noise: Noise::None, same_suffix: k != 1, declare_prefixes: k != 0, tns_of: vec![] });
+            out.push(Graph { n, edges: edges.clone(), start, noise: Noise::None, same_suffix: k != 1, declare_prefixes: k != 0, tns_of: vec![], includes: vec![] });
             if n >= 2 {
                 // a namespace split over two files: the last file shares the namespace of file 0 or 1
                 let mut tns_of: Vec<usize> = (0..n).collect();
                 tns_of[n - 1] = (mask as usize / 3) % (n - 1);
-                out.push(Graph { n, edges: edges.clone(), start, noise: Noise::None, same_suffix: k != 2, declare_prefixes: k != 1, tns_of });
+                out.push(Graph { n, edges: edges.clone(), start, noise: Noise::None, same_suffix: k != 2, declare_prefixes: k != 1, tns_of, includes: vec![] });
             }
         }
     }
@@ -328,7 +367,7 @@ fn arb_graph() -> impl Strategy<Value = Graph> {
                 prop_oneof![Just(vec![]), proptest::collection::vec(0usize..n, n)],
             )
         })
-        .prop_map(|(n, edges, start, noise, same_suffix, declare_prefixes, tns_of)| Graph { n, edges, start, noise, same_suffix, declare_prefixes, tns_of })
+        .prop_map(|(n, edges, start, noise, same_suffix, declare_prefixes, tns_of)| Graph { n, edges, start, noise, same_suffix, declare_prefixes, tns_of, includes: vec![] })
 }
 
 pub fn run(tier: Tier) -> i32 {
@@ -347,6 +386,31 @@ pub fn run(tier: Tier) -> i32 {
         graphs.extend(enumerate(n));
     }
     let exhaustive_n = graphs.len();
+    // xs:include edges: every graph on 3 files of one namespace with one or two include edges added
+    // (all placements), so a file is met over an include and an import path in every order
+    let mut include_graphs = vec![];
+    for base in enumerate(3).into_iter().filter(|g| g.tns_of.is_empty() && !g.same_suffix && !g.declare_prefixes) {
+        let step = tier.pick(7, 1);
+        for inc_mask in (1u32..512).step_by(step) {
+            if inc_mask.count_ones() > 2 {
+                continue;
+            }
+            let mut includes = vec![vec![]; 3];
+            for i in 0..3 {
+                for j in 0..3 {
+                    if inc_mask >> (i * 3 + j) & 1 == 1 {
+                        includes[i].push(j);
+                    }
+                }
+            }
+            let mut g = base.clone();
+            g.tns_of = vec![0, 0, 0];
+            g.includes = includes;
+            include_graphs.push(g);
+        }
+    }
+    ev.extra.insert("include_graphs".into(), json!(include_graphs.len()));
+    graphs.extend(include_graphs);
     let mut runner = crate::common::runner("C11");
     let strat = arb_graph();
     let mut trees = vec![];
@@ -370,7 +434,7 @@ pub fn run(tier: Tier) -> i32 {
         for bi in 0..(hi - lo) {
             let gi = lo + bi;
             let g = &graphs[gi];
-            if g.noise == Noise::None && reachable(g).len() < g.n {
+            if g.noise == Noise::None && !has_includes(g) && reachable(g).len() < g.n {
                 // exhaustive part: all three variants for n <= 3, a rotating one for n = 4
                 let vs: Vec<Noise> = if g.n <= 3 || gi >= exhaustive_n {
                     vec![Noise::UnreachableRemoved, Noise::UnreachableBroken, Noise::UnreachableOtherSchema]
